@@ -35,6 +35,7 @@ def _containment_primitive(ctx: Ctx) -> None:
     RP.rule_lp_zero_columns(ctx, P + "verify_polytope_containment", ["a_l", "a_r"], ["b_l", "b_r"], any_of=True)
     RP.rule_lp_zero_columns(ctx, P + "is_polytope_empty", ["a"], ["b"])
     RP.rule_lp_emptiness_shortcuts(ctx)
+    RP.rule_zero_column_exactness(ctx)
 
 
 def _simplify_primitive(ctx: Ctx) -> None:
@@ -52,22 +53,26 @@ def _simplify_primitive(ctx: Ctx) -> None:
     RP.rule_lp_zero_columns(ctx, P + "reduce_polytope", ["a", "a_help"], ["b"])
     # a context whose terms mention no variable (rows 0 <= b_help) while the list itself has columns
     RP.rule_lp_zero_columns(ctx, P + "reduce_polytope", ["a_help"], ["b_help"], allow_lp=True)
+    RP.rule_zero_column_exactness(ctx)
     RP.rule_lp_bounds(ctx)
 
 
 def c05(ctx: Ctx) -> None:
     RE.rule_definite_assignment(ctx)
+    RE.rule_call_arity(ctx)
     RA.rule_soundness(ctx, RA.GENERIC, ["compose", "quotient", "merge"])
     RA.rule_tl_operators(ctx)
 
 
 def c01(ctx: Ctx) -> None:
     RE.rule_definite_assignment(ctx)
+    RE.rule_call_arity(ctx)
     RA.rule_soundness(ctx, RA.POLY, ["compose"])
     RK.rule_term_kernels(ctx, ["multiply", "add", "remove", "substitute", "isolate"])
     RP.rule_dispatcher(ctx)
     RP.rule_transform(ctx)
     RK.rule_tactic4_certificate(ctx)
+    RK.rule_tactic3_change_of_variables(ctx)
     RK.rule_context_reduction_certificate(ctx)
     RA.rule_forwarding(ctx)
     RA.rule_default_orders(ctx)
@@ -76,11 +81,13 @@ def c01(ctx: Ctx) -> None:
 
 def c02(ctx: Ctx) -> None:
     RE.rule_definite_assignment(ctx)
+    RE.rule_call_arity(ctx)
     RA.rule_soundness(ctx, RA.POLY, ["quotient"])
     RK.rule_term_kernels(ctx, ["multiply", "add", "remove", "substitute", "isolate"])
     RP.rule_dispatcher(ctx)
     RP.rule_transform(ctx)
     RK.rule_tactic4_certificate(ctx)
+    RK.rule_tactic3_change_of_variables(ctx)
     RK.rule_context_reduction_certificate(ctx)
     RA.rule_forwarding(ctx)
     RA.rule_default_orders(ctx)
@@ -90,6 +97,7 @@ def c02(ctx: Ctx) -> None:
 
 def c08(ctx: Ctx) -> None:
     RE.rule_definite_assignment(ctx)
+    RE.rule_call_arity(ctx)
     RA.rule_soundness(ctx, RA.POLY, ["merge"])
     RA.rule_interfaces(ctx, RA.POLY, ["merge"])
     RA.rule_tl_operators(ctx)
@@ -99,6 +107,7 @@ def c08(ctx: Ctx) -> None:
 
 def c06(ctx: Ctx) -> None:
     RE.rule_definite_assignment(ctx)
+    RE.rule_call_arity(ctx)
     RA.rule_constructor(ctx, RA.GENERIC)
     RA.rule_interfaces(ctx, RA.POLY, ["compose", "quotient", "merge"])
     RA.rule_interfaces(ctx, RA.GENERIC, ["compose", "quotient", "merge"])
@@ -113,6 +122,7 @@ def c06(ctx: Ctx) -> None:
 
 def c15(ctx: Ctx) -> None:
     RE.rule_definite_assignment(ctx)
+    RE.rule_call_arity(ctx)
     RA.rule_retention(ctx, RA.POLY)
     RA.rule_exactness(ctx, RA.POLY)
     # "verbatim" rests on the list operators and on exact term equality (a tolerant == makes | and - drop near-equal terms)
@@ -124,6 +134,7 @@ def c15(ctx: Ctx) -> None:
 
 def c16(ctx: Ctx) -> None:
     RE.rule_definite_assignment(ctx)
+    RE.rule_call_arity(ctx)
     RK.rule_term_kernels(ctx, ["rename", "remove", "copy"])
     RP.rule_rename_variables_chain(ctx)
     RS.rule_termlist_rename(ctx)
@@ -133,6 +144,7 @@ def c16(ctx: Ctx) -> None:
 
 def c04(ctx: Ctx) -> None:
     RE.rule_definite_assignment(ctx)
+    RE.rule_call_arity(ctx)
     P = RP.PTL
     RP.rule_dispatcher(ctx)
     RP.rule_transform(ctx)
@@ -146,6 +158,7 @@ def c04(ctx: Ctx) -> None:
     RP.rule_polarity(ctx, P + "_get_tlp_context", "refine", True, "none")
     RP.rule_tactic4_sign(ctx)
     RK.rule_tactic4_certificate(ctx)
+    RK.rule_tactic3_change_of_variables(ctx)
     RK.rule_context_reduction_certificate(ctx)
     RP.rule_matrix_provenance(ctx, P + "_tactic_2")
     RP.rule_matrix_provenance(ctx, P + "_get_tlp_context")
@@ -157,6 +170,7 @@ def c04(ctx: Ctx) -> None:
 
 def c07(ctx: Ctx) -> None:
     RE.rule_definite_assignment(ctx)
+    RE.rule_call_arity(ctx)
     P = RP.PTL
     RP.rule_status_table(ctx, P + "reduce_polytope")
     RP.rule_lp_compare(ctx, P + "reduce_polytope", tolerance_rule=False, require_boundary=False)
@@ -170,12 +184,14 @@ def c07(ctx: Ctx) -> None:
     RP.rule_lp_zero_columns(ctx, P + "reduce_polytope", ["a", "a_help"], ["b"])
     # a context whose terms mention no variable (rows 0 <= b_help) while the list itself has columns
     RP.rule_lp_zero_columns(ctx, P + "reduce_polytope", ["a_help"], ["b_help"], allow_lp=True)
+    RP.rule_zero_column_exactness(ctx)
     RA.rule_constructor(ctx, RA.POLY)
     RP.rule_lp_bounds(ctx)
 
 
 def c11(ctx: Ctx) -> None:
     RE.rule_definite_assignment(ctx)
+    RE.rule_call_arity(ctx)
     P = RP.PTL
     RP.rule_contains_behavior(ctx)
     RP.rule_matrix_provenance(ctx, RP.PTL + "is_polytope_empty")
@@ -186,18 +202,21 @@ def c11(ctx: Ctx) -> None:
     RP.rule_polytope_roundtrip(ctx)
     RP.rule_lp_zero_columns(ctx, P + "is_polytope_empty", ["a"], ["b"])
     RP.rule_lp_emptiness_shortcuts(ctx)
+    RP.rule_zero_column_exactness(ctx)
     # "a behaviour contained in a list is contained in everything that list refines": the refinement test itself
     _containment_primitive(ctx)
 
 
 def c12(ctx: Ctx) -> None:
     RE.rule_definite_assignment(ctx)
+    RE.rule_call_arity(ctx)
     P = RP.PTL
     RP.rule_status_table(ctx, P + "optimize")
     RP.rule_matrix_provenance(ctx, P + "optimize")
     RP.rule_polarity(ctx, P + "optimize", "maximize", True, "return")
     RP.rule_get_variable_bounds(ctx)
     RP.rule_optimize_unconstrained(ctx)
+    RE.rule_raise_message_types(ctx)
     RP.rule_lp_bounds(ctx)
     # the LP is posed over  assumptions | guarantees  turned into matrices: union by exact term equality, one row per term
     RA.rule_tl_operators(ctx)
@@ -207,6 +226,7 @@ def c12(ctx: Ctx) -> None:
 
 def c09(ctx: Ctx) -> None:
     RE.rule_definite_assignment(ctx)
+    RE.rule_call_arity(ctx)
     RPA.rule_data_kernels(ctx)
     RPA.rule_translation(ctx)
     RPA.rule_scaling_actions(ctx)
@@ -219,6 +239,7 @@ def c09(ctx: Ctx) -> None:
 
 def c10(ctx: Ctx) -> None:
     RE.rule_definite_assignment(ctx)
+    RE.rule_call_arity(ctx)
     RSER.rule_dict_tables(ctx)
     RSER.rule_machine_exact(ctx)
     RSER.rule_file_tags(ctx)
@@ -226,11 +247,13 @@ def c10(ctx: Ctx) -> None:
     RSER.rule_printer_shape(ctx)
     RSER.rule_opposite_predicate(ctx)
     RSER.rule_printer_reading(ctx)
+    RE.rule_raise_message_types(ctx)
     RE.rule_validator_covers(ctx)
 
 
 def c13(ctx: Ctx) -> None:
     RE.rule_definite_assignment(ctx)
+    RE.rule_call_arity(ctx)
     RF.rule_no_operand_mutation(ctx)
     RF.rule_no_global_mutation(ctx)
     RF.rule_no_alias_results(ctx)
@@ -240,12 +263,16 @@ def c13(ctx: Ctx) -> None:
 
 def c14(ctx: Ctx) -> None:
     RE.rule_definite_assignment(ctx)
+    RE.rule_call_arity(ctx)
     RE.rule_raise_classes(ctx)
     RE.rule_constructed_not_raised(ctx)
     RE.rule_asserts(ctx)
     RE.rule_reader_validates(ctx)
     RE.rule_validator_covers(ctx)
     RE.rule_validator_types(ctx)
+    RE.rule_validator_refuses(ctx)
+    RE.rule_validator_faults(ctx)
+    RE.rule_reader_faults(ctx)
     RE.rule_optional_results(ctx)
     RE.rule_solver_dict_keys(ctx)
     RE.rule_division_sites(ctx)
@@ -260,9 +287,11 @@ def c14(ctx: Ctx) -> None:
     RP.rule_lp_zero_columns(ctx, P + "verify_polytope_containment", ["a_l", "a_r"], ["b_l", "b_r"], any_of=True)
     RP.rule_lp_zero_columns(ctx, P + "is_polytope_empty", ["a"], ["b"])
     RP.rule_lp_emptiness_shortcuts(ctx)
+    RP.rule_zero_column_exactness(ctx)
     RP.rule_lp_zero_columns(ctx, P + "reduce_polytope", ["a", "a_help"], ["b"])
     # a context whose terms mention no variable (rows 0 <= b_help) while the list itself has columns
     RP.rule_lp_zero_columns(ctx, P + "reduce_polytope", ["a_help"], ["b_help"], allow_lp=True)
+    RP.rule_zero_column_exactness(ctx)
     RE.rule_unorderable_sort(ctx)
     RE.rule_array_inplace_cast(ctx)
     RE.rule_raise_message_types(ctx)
@@ -270,6 +299,7 @@ def c14(ctx: Ctx) -> None:
 
 def c19(ctx: Ctx) -> None:
     RE.rule_definite_assignment(ctx)
+    RE.rule_call_arity(ctx)
     RS.rule_eq(ctx)
     RS.rule_hash(ctx)
     RS.rule_hash_order(ctx)
@@ -282,7 +312,9 @@ def c19(ctx: Ctx) -> None:
 
 def c17(ctx: Ctx) -> None:
     RE.rule_definite_assignment(ctx)
+    RE.rule_call_arity(ctx)
     RS.rule_nested_contains(ctx)
+    RS.rule_compound_from_strings(ctx)
     # contains_behavior of an alternative rests on evaluate / substitute
     RP.rule_contains_behavior(ctx)
     RK.rule_term_kernels(ctx, ["evaluate", "substitute"])
@@ -297,6 +329,7 @@ def c17(ctx: Ctx) -> None:
 
 def c03(ctx: Ctx) -> None:
     RE.rule_definite_assignment(ctx)
+    RE.rule_call_arity(ctx)
     P = RP.PTL
     RP.rule_refines_order(ctx)
     RP.rule_emptiness_precheck(ctx)
@@ -308,6 +341,7 @@ def c03(ctx: Ctx) -> None:
     RP.rule_lp_zero_columns(ctx, P + "verify_polytope_containment", ["a_l", "a_r"], ["b_l", "b_r"], any_of=True)
     RP.rule_lp_zero_columns(ctx, P + "is_polytope_empty", ["a"], ["b"])
     RP.rule_lp_emptiness_shortcuts(ctx)
+    RP.rule_zero_column_exactness(ctx)
     RP.rule_matrix_provenance(ctx, P + "verify_polytope_containment")
     RP.rule_matrix_provenance(ctx, P + "is_polytope_empty")
     RP.rule_lp_bounds(ctx)
@@ -316,6 +350,7 @@ def c03(ctx: Ctx) -> None:
     RP.rule_polytope_roundtrip(ctx)
     RA.rule_refines_shape(ctx, RA.GENERIC, "refines", RA.EXPECTED_REFINES, True)
     RA.rule_refines_shape(ctx, RA.GENERIC, "__le__", RA.EXPECTED_REFINES, True)
+    RS.rule_membership_tests(ctx)
     RA.rule_refines_shape(ctx, RA.GENERIC, "contains_environment", RA.EXPECTED_ENV, False)
     RA.rule_refines_shape(ctx, RA.GENERIC, "contains_implementation", RA.EXPECTED_IMPL, False)
 
